@@ -84,6 +84,8 @@ pub struct Profile {
     pub p_align: u64,
     /// requests issued back to back (same instant or 1 ns apart)
     pub p_burst: u64,
+    /// occasionally a much longer history (ten times the application actions, up to 150)
+    pub p_long: u64,
 }
 
 impl Profile {
@@ -132,6 +134,7 @@ impl Profile {
             p_perfect: 50,
             p_align: 120,
             p_burst: 60,
+            p_long: 30,
         }
     }
 }
@@ -311,7 +314,14 @@ fn gen_cfg(p: &Profile, rng: &mut Rng) -> Cfg {
         srv_legacy: rng.chance(1, 4),
         srv_lenient: rng.chance(p.p_lenient, 1000),
         lat_ns: rng.log_range(p.lat_ns.0, p.lat_ns.1),
-        n_app: rng.range(p.n_app.0, p.n_app.1) as usize,
+        n_app: {
+            let n = rng.range(p.n_app.0, p.n_app.1) as usize;
+            if rng.chance(p.p_long, 1000) {
+                (n * 10).min(150)
+            } else {
+                n
+            }
+        },
         n_inj: rng.range(p.n_inj.0, p.n_inj.1) as usize,
         retry_budget: rng.range(0, 4) as u32,
         txid_seed: rng.next_u64() | 1,
